@@ -277,7 +277,7 @@ def execute(case, scratch):
             if not ok:
                 what = 'count' if len(got) != len(exp) else 'values'
                 j = next((j for j, (g, e) in enumerate(zip(got, exp)) if not same_txn(g, e)), min(len(got), len(exp)))
-                violations.append({'invariant': 'FID', 'signature': {'what': what, 'delimiter': delim, 'sign': lay['sign'] or ('neg' if lay['negate_setting'] else 'plain'),
+                violations.append({'invariant': 'FID', 'signature': {'what': what, 'delimiter': delim, 'sign': (lay['sign'] or 'plain') + ('+neg' if lay['negate_setting'] else ''),
                                                                      'decimal': lay['decimal']},
                                    'witness': 'fault-free parse of %d written rows gave %d transactions; first difference at #%d: got %s, written %s'
                                               % (len(exp), len(got), j, util.canon(got[j]) if j < len(got) else None,
@@ -289,7 +289,7 @@ def execute(case, scratch):
         for f in case['faults']:
             res = parse(f['text'])
             sets['tuples'].add('%s|%s|%s|%s|%s|%s' % (laycls, lay['delimiter'], lay['decimal'],
-                                                    lay['sign'] or ('neg' if lay['negate_setting'] else 'plain'), f['class'], f['position']))
+                                                    (lay['sign'] or 'plain') + ('+neg' if lay['negate_setting'] else ''), f['class'], f['position']))
             count['fired.' + f['class']] = count.get('fired.' + f['class'], 0) + 1
             log.append(['fault', f['class'], util.digest(res)])
             if 'exception' in res:
